@@ -143,7 +143,7 @@ def count_dots(c):
 def run(tier, seed):
     ctx = core.Ctx(PID, tier, seed, LEVEL)
     rng = ctx.rng
-    n = 12000 if tier == "quick" else core.share(300000)
+    n = 12000 if tier == "quick" else core.share(1200000)
     legs = ["dev"] if tier == "quick" else ["dev", "release"]
     nums = num_exprs(rng, tier)
     vg = VG(rng, nums)
